@@ -403,8 +403,12 @@ def filter_nodes_table(repo, run, rule):
             if name == 'add' and getattr(recv, 'name', None) == 'removed':
                 removed.add(tuple(args[0][1:]))
                 return None
+            if name == 'update' and getattr(recv, 'name', None) == 'removed':
+                for x_ in (list(args[0]) if args else []):
+                    removed.add(tuple(x_[1:]))
+                return None
             raise AnalysisError('filter_nodes: unexpected stub ' + name)
-        ev = _fde(repo, stubs={'named_children', 'remove_child', 'set_child', 'get_list_path', 'add'}, stub=stub)
+        ev = _fde(repo, stubs={'named_children', 'remove_child', 'set_child', 'get_list_path', 'add', 'update'}, stub=stub)
         removed = set()
         try:
             r = ev.call(fi, root, cond, prefix=['r'], removed=Obj('removed', '<set of paths>'))
